@@ -26,6 +26,8 @@ def sh(cmd, cwd, timeout=3600, extra_env=None):
 meta = {"property": prop, "n": int(n), "source": "independent sub-agent given only the property text and a scratch worktree", "ran": []}
 readme = open(os.path.join(sd, "README.md")).read() if os.path.exists(os.path.join(sd, "README.md")) else ""
 needs_miri = "miri test" in readme.lower() or "miri" in open(os.path.join(sd, "demo.rs")).read().lower()[:3000] and "cargo +nightly miri" in readme
+if os.environ.get("NEEDS_MIRI") is not None:
+    needs_miri = os.environ["NEEDS_MIRI"] == "1"
 sh("git checkout -- . && rm -f tests/seeded_demo.rs", wt)
 rc, out = sh("git apply --check seeded/%s/patch.diff" % n, wt)
 meta["patch_applies"] = rc == 0
